@@ -238,8 +238,12 @@ def main(tier, seed):
               f"programs interpreted under all 1-deviation and uniform "
               f"layouts, lead/trail layouts, single re-spellings (hex, "
               f"binary, underscore, leading zero ints; quote style and "
-              f"escapes; != / <>), single redundant parentheses and optional "
-              f"semicolons; class = (level, variant kind, outcome kind)"),
+              f"escapes; != / <>), single redundant parentheses around "
+              f"literals, signed literals, one call argument or list "
+              f"element, optional semicolons (blocks and class members); "
+              f"level P = every flat a op1 b op2 c over {len(pairs)} operator "
+              f"pairs against its fully parenthesised text; class = (level, "
+              f"variant kind, outcome kind)"),
         exhaustive=True,
         assumptions=["whitespace inside string literals and removal of "
                      "separators where tokens would fuse are not layout "
